@@ -141,6 +141,10 @@ class RefEncoder:
             if dt and dt != XSD_STRING:
                 slot = self._entry(self.datatypes, "datatype", dt)
                 return ("literal", lex, None, slot)
+            if self.datatypes.size and self._c("explicit-xsd-string", 2, "explicit-xsd-string"):
+                # a producer may state xsd:string explicitly through the datatype table
+                slot = self._entry(self.datatypes, "datatype", XSD_STRING)
+                return ("literal", lex, None, slot)
             return ("literal", lex, None, None)
         if k == "T":
             return ("triple", {"s": self._term(t[1]), "p": self._term(t[2]),
@@ -235,7 +239,7 @@ class RefEncoder:
 ALL_FEATURES = frozenset({
     "resend", "slot", "explicit-entry-id", "split", "empty-prefix-entry", "explicit-ref",
     "no-elide", "regraph", "frames", "repeat-options", "version", "single-frame",
-    "leading-empty", "early-entry", "late-namespace",
+    "leading-empty", "early-entry", "late-namespace", "explicit-xsd-string",
 })
 
 
